@@ -14,7 +14,7 @@ Definition resp_eqb (a b : tresp) : bool :=
     once iff admitted; a rejected request gets the fallback response (or an error) and the inner
     service is not called; after a completed call — response or error — the in-flight count is
     back to its previous value. *)
-Fixpoint ok_c20 (thr : N) (fb : bool) (k : N) (l : list treq) (obs : list tobs1) : bool :=
+Fixpoint ok_c20 (thr : N) (fb : N) (k : N) (l : list treq) (obs : list tobs1) : bool :=
   match l, obs with
   | [], [] => true
   | q :: tl, o :: obs' =>
@@ -25,7 +25,7 @@ Fixpoint ok_c20 (thr : N) (fb : bool) (k : N) (l : list treq) (obs : list tobs1)
          else resp_eqb (o_resp o) (if is_ok (q_kind q) then TROkInner else TRErr) && (o_inflight o =? k)
               && ok_c20 thr fb k tl obs')
       else
-        (o_calls o =? 0) && (o_polls o =? 0) && resp_eqb (o_resp o) (if fb then TROkFallback else TRErr)
+        (o_calls o =? 0) && (o_polls o =? 0) && resp_eqb (o_resp o) (if fb =? 1 then TROkFallback else TRErr)
         && (o_inflight o =? k) && ok_c20 thr fb k tl obs'
   | _, _ => false
   end.
